@@ -311,7 +311,9 @@ class QuicSession:
 
     def set_server_client_address(self, packet, server_ports) -> bool:
         # Returns True if packet is from server, else it returns False
-        if packet.sport in server_ports:
+        # if both ports are configured server ports (an ephemeral client port may equal one of them, e.g. 44330)
+        # the first datagram seen of a connection is taken to come from the client
+        if packet.sport in server_ports and packet.dport not in server_ports:
             self.server_ip = packet.ip_src
             self.server_port = packet.sport
             self.server_mac_addr = packet.ethernet_src
